@@ -22,14 +22,16 @@ def run(chk, replay=None):
         info['fields'] = fs; info['plan'] = plan
         cases.append((l, info))
     lines = [l for l, _ in cases]
-    off = run_lines(Cfg(nums=True), lines)
-    for rel, prefix in (('equal-db', 'mydb'), ('full', 'mydb.users'), ('different', 'otherdb'), ('different2', 'mydb.usersX')):
-        cfg = Cfg(nums=True, eager=[prefix])
+    offs = {False: run_lines(Cfg(nums=True), lines), True: run_lines(Cfg(nums=True, nss=True), lines)}
+    # the last configuration combines field-name mode with --redactNamespaces (both features read attr.ns)
+    for rel, prefix, nss in (('equal-db', 'mydb', False), ('full', 'mydb.users', False), ('different', 'otherdb', False), ('different2', 'mydb.usersX', False), ('full+namespaces', 'mydb.users', True)):
+        cfg = Cfg(nums=True, nss=nss, eager=[prefix])
         res = run_lines(cfg, lines)
+        off = offs[nss]
         for (l, info), (io, mo), (fo, _) in zip(cases, res, off):
             chk.count(); chk.traces += 1
             if io != mo: chk.drift += 1
-            case = {'prefix': prefix, 'input': l.decode('utf-8', 'replace')[:2500]}
+            case = {'prefix': prefix, 'redactNamespaces': nss, 'input': l.decode('utf-8', 'replace')[:2500]}
             if not isinstance(io, bytes): continue
             ns = 'mydb.' + info['coll']
             applies = ns.startswith(prefix)
